@@ -167,6 +167,12 @@ func runC17(r *core.Run) {
 			mkFrame([2]bound{{K: "ub"}, {K: "cur"}})
 		}
 		sql := fmt.Sprintf("SELECT id, %s OVER (%s%s) AS r, ROW_NUMBER() OVER (%s) AS rn FROM t", call, win, frame, win)
+		if fn != "listagg" && c%5 == 4 {
+			// the table comes from a sub-query that has an analytic function of its own and lists the columns in another
+			// order: the outer function must order and partition by ITS columns
+			sql = fmt.Sprintf("SELECT id, %s OVER (%s%s) AS r, ROW_NUMBER() OVER (%s) AS rn FROM (SELECT v, o, p, id, %s() OVER (ORDER BY %s) AS zz FROM t) t",
+				call, win, frame, win, []string{"ROW_NUMBER", "RANK"}[rng.Intn(2)], []string{"v", "o DESC", "p, v", "id DESC"}[rng.Intn(4)])
+		}
 		if fn == "listagg" {
 			// two calls that differ in the separator only (and only in its letter case): two columns, each with its own value
 			sql = fmt.Sprintf("SELECT id, LISTAGG(v, 'a') OVER (%s) AS r, ROW_NUMBER() OVER (%s) AS rn, LISTAGG(v, 'A') OVER (%s) AS r2 FROM t", win, win, win)
